@@ -58,7 +58,9 @@ def main():
     checked = "checked_" in flat
     if int_to_f64 and back_to_i64:
         via_f64 = True
-    elif not int_to_f64 and not back_to_i64 and checked:
+    elif not back_to_i64 and checked:
+        # the integer result no longer comes out of the f64 accumulator (integers may still be
+        # converted to f64 for float arithmetic)
         via_f64 = False
     else:
         raise TranslateError("fold_arithmetic: cannot tell whether integers are folded through f64 "
@@ -87,7 +89,7 @@ def main():
     uses = {}
     for name, op in CLOSURES.items():
         body = re.sub(r"\s+", " ", strip_comments(fn_body(impl, name, f"IR::{name}")))
-        m = re.search(r"self\.fold_arithmetic\(\s*operands\.as_slice\(\)\s*,\s*is_float\s*,\s*\|acc,\s*x\|\s*acc\s*(\S)\s*x\s*,?\s*\)", body)
+        m = re.search(r"self\.fold_arithmetic\(\s*operands\.as_slice\(\)\s*,\s*is_float\s*,\s*\|acc,\s*x\|\s*acc\s*(\S)\s*x\s*,?\s*(?:\|acc,\s*x\|\s*acc\.checked_(add|sub|mul)\(x\)\s*,?\s*)?\)", body)
         if not m:
             if "fold_arithmetic" in body or "checked_" in body:
                 raise TranslateError(f"IR::{name}: call of fold_arithmetic has an unexpected shape")
@@ -95,6 +97,8 @@ def main():
         else:
             if m.group(1) != op:
                 raise TranslateError(f"IR::{name}: folding closure is `acc {m.group(1)} x`, expected `acc {op} x`")
+            if m.group(2) and m.group(2) != name:
+                raise TranslateError(f"IR::{name}: integer folding closure is checked_{m.group(2)}")
             uses[name] = True
     for name in ("div", "modulus"):
         if "fold_arithmetic" in fn_body(impl, name):
